@@ -32,7 +32,15 @@ static void setup(wuffs_tv__calc* c) {
   for (int i = 0; i < 4; i++) verif_spec_set("wtab", i, c->private_impl.f_wtab[i]);
 }
 
+static void compare_fields(wuffs_tv__calc* c);
+
 static void compare(wuffs_tv__calc* c) {
+  compare_fields(c);
+  verif_check(c->private_impl.magic == WUFFS_BASE__MAGIC, "tv/object-still-usable");
+  verif_reach("tv/done");
+}
+
+static void compare_fields(wuffs_tv__calc* c) {
   verif_check(c->private_impl.f_a8 == verif_spec_get("a8", 0), "tv/field-a8");
   verif_check(c->private_impl.f_a16 == verif_spec_get("a16", 0), "tv/field-a16");
   verif_check(c->private_impl.f_a32 == verif_spec_get("a32", 0), "tv/field-a32");
@@ -40,8 +48,6 @@ static void compare(wuffs_tv__calc* c) {
   verif_check(c->private_impl.f_lim == verif_spec_get("lim", 0), "tv/field-lim");
   for (int i = 0; i < 8; i++) verif_check(c->private_impl.f_tab[i] == verif_spec_get("tab", i), "tv/field-tab");
   for (int i = 0; i < 4; i++) verif_check(c->private_impl.f_wtab[i] == verif_spec_get("wtab", i), "tv/field-wtab");
-  verif_check(c->private_impl.magic == WUFFS_BASE__MAGIC, "tv/object-still-usable");
-  verif_reach("tv/done");
 }
 
 void harness_tv_arith8(void) {
@@ -137,4 +143,22 @@ void harness_tv_calls(void) {
   uint64_t got = wuffs_tv__calc__calls(&c, x, y);
   verif_check(got == verif_spec_call("calls", x, y, 0, 0), "tv/result");
   compare(&c);
+}
+
+// arguments inside the refinements: as above; outside: the call is rejected (doc/note/statuses.md,
+// "bad argument"): the object is disabled and no field changes
+void harness_tv_refined(void) {
+  wuffs_tv__calc c;
+  setup(&c);
+  uint32_t x = nondet_u32();
+  uint8_t y = nondet_u8();
+  wuffs_tv__calc__refined(&c, x, y);
+  if (x >= 5 && x <= 10 && y <= 200) {
+    (void)verif_spec_call("refined", x, y, 0, 0);
+    compare(&c);
+  } else {
+    compare_fields(&c);
+    verif_check(c.private_impl.magic == WUFFS_BASE__DISABLED, "tv/bad-argument-disables-the-object");
+    verif_reach("tv/done");
+  }
 }
